@@ -35,6 +35,10 @@ pub enum Ev {
     DropStream(usize),
     DropMaster,
     DropCtx,
+    /// persistent back-pressure: the transport accepts k (0 or 1) more bytes, then answers Pending
+    /// until `WriteUnblock` - the write of the next packet does not complete in between
+    WriteBlock(usize),
+    WriteUnblock,
 }
 
 impl Ev {
@@ -62,6 +66,8 @@ impl Ev {
             Ev::DropStream(i) => format!("DropStream(stream{})", i),
             Ev::DropMaster => "DropLastHandle".into(),
             Ev::DropCtx => "DropContext".into(),
+            Ev::WriteBlock(k) => format!("WriteBlock(after {} byte(s))", k),
+            Ev::WriteUnblock => "WriteUnblock".into(),
         }
     }
     /// schedule-independent class (no indices / tags), used in witnesses
@@ -303,7 +309,11 @@ impl Sys {
             }
         }
         // (a transport whose write half has failed may of course have taken only part of a packet)
-        if self.w.partial_out() != 0 && !self.w.wire.borrow().write_err {
+        if self.w.partial_out() != 0
+            && !self.w.wire.borrow().write_err
+            && !self.w.hard_blocked()
+            && self.m.blocked.is_none()
+        {
             let n = self.w.partial_out();
             self.violation(
                 "wire-partial-packet",
@@ -509,6 +519,11 @@ impl Sys {
                 self.w.poll_task(t);
             }
             Ev::Deliver(p) => {
+                if self.m.block_armed {
+                    let needs_ack = matches!(&p, SPacket::Publish { qos, .. } if *qos > 0)
+                        || matches!(&p, SPacket::Ack { ty: 6, .. });
+                    assert!(!needs_ack, "harness: inbound packet that must be acknowledged while a write block is armed");
+                }
                 self.m.deliver(p.clone());
                 self.deliver_chunked(p.encode());
             }
@@ -581,8 +596,23 @@ impl Sys {
                 self.m.drop_ctx();
                 self.w.drop_task(Tid::Ctx);
             }
+            Ev::WriteBlock(k) => {
+                assert!(k <= 1, "harness: every packet is at least 2 bytes long; larger budgets would need byte-exact lengths in the model");
+                assert!(self.m.inbox.is_empty(), "harness: write block armed with inbound packets pending");
+                self.m.block_armed = true;
+                self.w.arm_write_block(k);
+            }
+            Ev::WriteUnblock => {
+                self.m.unblock();
+                self.w.lift_write_block();
+            }
         }
         self.sync();
+    }
+
+    /// the persistent write block is armed or active
+    pub fn write_block_pending(&self) -> bool {
+        self.m.block_armed || self.m.blocked.is_some()
     }
 
     fn deliver_chunked(&mut self, bytes: Vec<u8>) {
@@ -601,6 +631,12 @@ impl Sys {
     pub fn finish(&mut self) {
         if self.dead {
             return;
+        }
+        if self.write_block_pending() {
+            self.apply(Ev::WriteUnblock);
+            if self.dead {
+                return;
+            }
         }
         let mut any = false;
         if self.w.ctx.held {
